@@ -201,7 +201,7 @@ class SoulSeekClient:
             )
 
         # Notify all listeners that the session has been initialized
-        self.session = Session(
+        session = self.session = Session(
             user=self.users.get_user_object(username),
             ip_address=response.ip if response.ip is not None else '',
             greeting=response.greeting if response.greeting is not None else '',
@@ -210,13 +210,16 @@ class SoulSeekClient:
         )
         await self.events.emit(
             SessionInitializedEvent(
-                session=self.session,
+                session=session,
                 raw_message=response
             )
         )
 
-        # Finally start up the reader loop for the server
-        self.network.server_connection.start_reader_task()
+        # Finally start up the reader loop for the server, unless the connection
+        # was lost or closed while the listeners were being notified: the
+        # session is destroyed and there is nothing left to read from
+        if self.session is session:
+            self.network.server_connection.start_reader_task()
 
     def _exception_handler(self, loop, context):
         message = f"unhandled exception on loop {loop!r} : context : {context!r}"
